@@ -11,6 +11,8 @@ let () =
   | _ :: "joint" :: _ -> R_joint.run ()
   | _ :: "exc" :: _ -> R_exc.run ()
   | _ :: "thread" :: _ -> R_thread.run ()
+  | _ :: "temp" :: c :: _ -> R_temp.run c
+  | _ :: "temp" :: _ -> R_temp.run "fixed"
   | _ :: "move" :: _ -> R_move.run ()
   | _ :: "ordered" :: "small" :: _ -> R_ordered.run_small ()
   | _ :: "ordered" :: _ -> R_ordered.run_ord ()
